@@ -40,3 +40,4 @@ def rules(ctx):
     S.untracked_allocation_rules(ctx)
     S.relocate_tree_rules(ctx)
     S.after_bound_rules(ctx)
+    S.relocation_content_rules(ctx)
